@@ -161,10 +161,30 @@ fn exec_case(case: &str) -> Verdict {
             };
             // invoke the macro (only when the decoded body cannot start escape sequences: no ESC byte pair "1B")
             let upper = body.to_ascii_uppercase();
-            if obs.starts_with("ok") && !upper.contains("1B") && !upper.contains('!') {
+            if obs.starts_with("ok") && !upper.contains("1B") {
                 let _ = catch(std::panic::AssertUnwindSafe(|| {
                     let _ = feed(&mut p, &mut buf, &mut caret, "\x1b[1*z".chars());
                 }));
+                // a macro body is the characters that were defined, in whole: replaying it cannot show a character
+                // that no pair of hex digits of the definition names (a byte-wise cut through a two-byte character
+                // makes the next one up from its halves)
+                let b: Vec<char> = body.chars().collect();
+                let hv = |c: char| (((c as u32) % 256) as u8 as char).to_digit(16); // the parser looks at `ch as u8`
+                let mut named = std::collections::HashSet::new();
+                for w in b.windows(2) {
+                    if let (Some(h), Some(l)) = (hv(w[0]), hv(w[1])) {
+                        named.insert(h * 16 + l);
+                    }
+                }
+                'scan: for y in 0..buf.get_line_count() {
+                    for x in 0..buf.get_width() {
+                        let ch = buf.get_char((x, y)).ch as u32;
+                        if ch != 0x20 && ch != 0 && !named.contains(&ch) {
+                            fails.push(("parse_hex_macro_sequence".to_string(), format!("replaying the macro shows U+{ch:04X}, which the definition never named")));
+                            break 'scan;
+                        }
+                    }
+                }
             }
             scan_buffer(&buf, "parse_hex_macro_sequence", &mut fails);
             obs
@@ -504,6 +524,18 @@ fn gen_cases(rng: &mut Rng, thorough: bool) -> Vec<String> {
         let cps: Vec<u32> = cps.into_iter().filter(|x| *x != 0x1B).collect();
         c.push(format!("hexm:{}", if cps.is_empty() { "-".to_string() } else { cps.iter().map(|x| x.to_string()).collect::<Vec<_>>().join(",") }));
     }
+    // --- hex macros whose repeat groups reach the end of the macro space (records of 1..3 characters, one- and two-byte)
+    for (k, n) in [16383u32, 16384, 20000, 32766, 32767, 32768, 10922, 10923, 8191, 8192, 99999, 2147483647].iter().enumerate() {
+        for (j, recd) in ["E9", "41", "E941", "41E9", "E9E9", "C3A9", "80FF41", "7F80"].iter().enumerate() {
+            if m == 5 && (k + j) % 3 != (seed_mix(rng) % 3) as usize {
+                continue;
+            }
+            for pre in ["", "41", "E9", "4142"] {
+                let txt = format!("{pre}!{n};{recd};41");
+                c.push(format!("hexm:{}", txt.bytes().map(|x| x.to_string()).collect::<Vec<_>>().join(",")));
+            }
+        }
+    }
     // --- clipboard records: all 16-bit classes
     for v in [0u16, 0x41, 0xD7FF, 0xD800, 0xDBFF, 0xDC00, 0xDFFF, 0xE000, 0xFFFD, 0xFFFF] {
         c.push(format!("clip:{}", clip_record(0, 0, 1, 1, &[(v, 0)], 0)));
@@ -717,4 +749,8 @@ pub fn run(run: &mut Run, seed: u64, thorough: bool, replay: Option<&str>, corpu
     }
     run.extra.push(("child_deaths".into(), deaths.to_string()));
     run.extra.push(("cases_in_child_processes".into(), cases.len().to_string()));
+}
+
+fn seed_mix(rng: &mut Rng) -> u64 {
+    rng.below(3)
 }
